@@ -1250,12 +1250,32 @@ where
         state: DeliveryState,
     ) -> Result<(), DispositionError> {
         let delivery_info = delivery_info.into();
+        #[cfg(fe2o3_amqp_verif)]
+        let no_room = self.outgoing.capacity() == 0;
+        #[cfg(fe2o3_amqp_verif)]
+        if no_room {
+            crate::verif::sched_point("observe.receiver.dispose.no_room.begin").await;
+        }
         self.link
             .dispose(&self.outgoing, delivery_info, settled, state, false)
             .await?; // cancel safe
+        #[cfg(fe2o3_amqp_verif)]
+        if no_room {
+            crate::verif::sched_point("observe.receiver.dispose.no_room.end").await;
+        }
 
         let prev = self.processed.fetch_add(1, Ordering::Release);
+        #[cfg(fe2o3_amqp_verif)]
+        let no_room = self.outgoing.capacity() == 0;
+        #[cfg(fe2o3_amqp_verif)]
+        if no_room {
+            crate::verif::sched_point("observe.receiver.dispose.no_room.begin").await;
+        }
         self.update_credit_if_auto(prev + 1).await?; // cancel safe
+        #[cfg(fe2o3_amqp_verif)]
+        if no_room {
+            crate::verif::sched_point("observe.receiver.dispose.no_room.end").await;
+        }
         Ok(())
     }
 
